@@ -159,6 +159,38 @@ def scribble(lst, dct):
                 junk(flags, 3)
 
 
+def table_mismatch(ctxs, tab):
+    """For a run a real stream yielded over the logical table `tab`: the collected data / depth / position columns must carry
+    the TABLE's values on every covered row (not merely whatever the stream put into its ContextResults).  -> description or None."""
+    with warnings.catch_warnings():
+        warnings.simplefilter("ignore")
+        lst = collect_results(list(ctxs), how="list")
+    cov = {}
+    for r in ctxs:
+        m = np.asarray(np.ma.getdata(r.subset_indexes)).reshape(-1).astype(bool)
+        for tr in r.results:
+            k = f"{r.stream_id}:{tr.package}.{tr.test}"
+            cov[k] = m if k not in cov else (cov[k] | m)
+    for cr in lst:
+        c = cov.get(cr.hash_key)
+        if c is None:
+            continue
+        for attr, col in (("data", tab["cols"].get(cr.stream_id)), ("zinp", tab["axes"].get("z")), ("lat", tab["axes"].get("lat")),
+                          ("lon", tab["axes"].get("lon"))):
+            arr = getattr(cr, attr)
+            if col is None or arr is None or np.ma.asarray(arr).size != len(col):
+                continue
+            a = np.ma.asarray(arr)
+            data, mask = np.ma.getdata(a).reshape(-1), np.ma.getmaskarray(a).reshape(-1)
+            for i, want in enumerate(col):
+                if not c[i]:
+                    continue
+                got = None if mask[i] or data[i] != data[i] else float(data[i])
+                if (want is None) != (got is None) or (want is not None and float(want) != got):
+                    return f"{cr.hash_key}: collected {attr}[{i}] = {got}, the table has {None if want is None else float(want)}"
+    return None
+
+
 def observe(ctxs, intern, present_cols, recollect=False):
     """Collected list and dict forms.  With `recollect`, the arrays of a first collect are overwritten in place and
     the run is collected again: the second collect must still report what the contexts produced."""
@@ -228,6 +260,13 @@ def run(out: Outcome, drv):
     for src, n, ctxs, desc in cases:
         if not ctxs:
             continue
+        if desc is not None:
+            try:
+                bad = table_mismatch(ctxs, desc["table"])
+            except Exception:  # noqa: BLE001   (a collect that raises is reported below)
+                bad = None
+            if bad:
+                out.violation(f"{WHAT}: run through the {src} front end: {bad}", {"case": jsonable({"source": src, "n": n, "desc": desc}), "observed": bad})
         intern = Intern()
         by_ctx = [wire_contexts([r], intern) for r in ctxs]
         wired = [p for ps in by_ctx for p in ps]
